@@ -194,7 +194,7 @@ def check_history(xs: List[int], ops: List[int], k: int, hoist: int) -> bool:
     pre: 1 <= len(ops) <= B.HIST
     pre: 0 <= k <= len(xs)
     pre: 0 <= hoist <= 2
-    pre: h.in_shard(len(ops) - 1 + B.HIST * len(xs))
+    pre: h.in_shard(len(ops) - 1 + B.HIST * len(xs) + B.HIST * (B.FLOW + 1) * hoist)
     post: _
     """
     flow = mkflow(xs, False)
@@ -291,7 +291,7 @@ CONDITIONS = [
     dict(fn="check_interrupted", budget=(70, 900),
          smoke=["check_interrupted([1, 2, 3], False, 3, 0, 0)",
                 "check_interrupted([1, 2, 3], False, 3, 2, 1)"]),
-    dict(fn="check_history", shards=(15, 24), budget=(70, 1200),
+    dict(fn="check_history", shards=(45, 72), budget=(110, 1200),
          smoke=["check_history([1, 2], [0, 0, 3], 1, 0)", "check_history([1, 2], [0, 2, 1], 1, 1)",
                 "check_history([1, 2], [0, 4, 0], 1, 2)", "check_history([1, 2], [0, 2, 0], 1, 1)"]),
     dict(fn="check_two_caches", budget=(60, 600),
